@@ -9,6 +9,9 @@
 //!   mergeq <idx> <hex1> <hex2>
 //!   declen <idx> <hex>          Message::decode_length_delimited (quiet)
 //!   lendelim <hex>              pilota::prost::decode_length_delimiter
+//!   leak   <idx> <hex>          Message::decode(Bytes) (zero-copy path), then the result (value or error) and the
+//!                               input are dropped:  ok|err LIVE <live heap bytes after - before> REFS <0|1>
+//!                               REFS 1 = a second handle to the input Bytes is not unique after the result was dropped
 //!   info   <idx>                NAME <proto name> SIZE <size_of>
 //!   count                       N <number of message types>
 //!
@@ -87,6 +90,7 @@ pub enum Op {
     Dec { data: Vec<u8>, quiet: bool },
     Merge { a: Vec<u8>, b: Vec<u8>, quiet: bool },
     DecLen { data: Vec<u8> },
+    Leak { data: Vec<u8> },
     Info,
 }
 
@@ -177,9 +181,31 @@ fn render_ok<T: Message + Debug>(m: &T, pk: &Peak, quiet: bool) -> String {
     s
 }
 
+/// one measurement: live heap bytes before the input exists vs after result and input are gone
+fn leak_once<T: Message + Default>(data: &[u8]) -> (&'static str, i64, u8) {
+    let before = LIVE.load(Relaxed) as i64;
+    let input = Bytes::copy_from_slice(data);
+    let keep = input.clone();
+    let r = T::decode(input);
+    let st = if r.is_ok() { "ok" } else { "err" };
+    drop(r);
+    // (an empty Bytes is a static: there is no buffer anyone could hold on to)
+    let refs = if data.is_empty() || keep.is_unique() { 0 } else { 1 };
+    drop(keep);
+    let after = LIVE.load(Relaxed) as i64;
+    (st, after - before, refs)
+}
+
 fn run_op<T: Message + Default + Debug>(op: &Op) -> String {
     match op {
         Op::Info => format!("SIZE {}", std::mem::size_of::<T>()),
+        Op::Leak { data } => {
+            // the first decode of a type may initialise process-wide state (hasher seeds, thread locals):
+            // a leak repeats, so the second measurement is the one reported
+            let _ = leak_once::<T>(data);
+            let (st, live, refs) = leak_once::<T>(data);
+            format!("{} LIVE {} REFS {}", st, live, refs)
+        }
         Op::Dec { data, quiet } => {
             let input = Bytes::from(data.clone());
             let pk = Peak::start();
@@ -230,6 +256,7 @@ fn run_line(line: &str) -> Result<String, String> {
         "merge" => (idx(1)?, Op::Merge { a: bytes_at(2)?, b: bytes_at(3)?, quiet: false }),
         "mergeq" => (idx(1)?, Op::Merge { a: bytes_at(2)?, b: bytes_at(3)?, quiet: true }),
         "declen" => (idx(1)?, Op::DecLen { data: bytes_at(2)? }),
+        "leak" => (idx(1)?, Op::Leak { data: bytes_at(2)? }),
         "info" => {
             let i = idx(1)?;
             let r = dispatch(i, &Op::Info).ok_or("no such message index")?;
